@@ -3,33 +3,755 @@ From Verif Require Import Base.GoInt Proto.Ext Generated.ProtoGen Proto.PrimSpec
 From Coq Require Import ZifyBool.
 Open Scope Z_scope.
 
+Local Ltac Zify.zify_post_hook ::= Z.div_mod_to_equations.
+
+(* ------------------------------------------------------------------ *)
+(* machine-integer basics                                              *)
+(* ------------------------------------------------------------------ *)
+
+Lemma w64_small : forall x, 0 <= x < 2 ^ 64 -> w64 x = x.
+Proof. intros x H. unfold w64. apply Z.mod_small. exact H. Qed.
+
+Lemma w32_small : forall x, 0 <= x < 2 ^ 32 -> w32 x = x.
+Proof. intros x H. unfold w32. apply Z.mod_small. exact H. Qed.
+
+Lemma w64_range : forall x, 0 <= w64 x < 2 ^ 64.
+Proof. intros x. unfold w64. apply Z.mod_pos_bound. reflexivity. Qed.
+
+Lemma s64_small : forall x, - 2 ^ 63 <= x < 2 ^ 63 -> s64 x = x.
+Proof.
+  intros x H. unfold s64, w64.
+  change (2 ^ 63) with 9223372036854775808 in *.
+  change (2 ^ 64) with 18446744073709551616 in *.
+  destruct (Z.ltb_spec (x mod 18446744073709551616) 9223372036854775808); lia.
+Qed.
+
+Lemma s32_small : forall x, - 2 ^ 31 <= x < 2 ^ 31 -> s32 x = x.
+Proof.
+  intros x H. unfold s32, w32.
+  change (2 ^ 31) with 2147483648 in *.
+  change (2 ^ 32) with 4294967296 in *.
+  destruct (Z.ltb_spec (x mod 4294967296) 2147483648); lia.
+Qed.
+
+Lemma shr64_div : forall v n, 0 <= n < 64 -> shr64 v n = v / 2 ^ n.
+Proof.
+  intros v n H. unfold shr64.
+  destruct (Z.ltb_spec n 64); [|lia]. apply Z.shiftr_div_pow2. lia.
+Qed.
+
+Lemma shl64_mul : forall v n, 0 <= n < 64 -> shl64 v n = w64 (v * 2 ^ n).
+Proof.
+  intros v n H. unfold shl64.
+  destruct (Z.ltb_spec n 64); [|lia]. rewrite Z.shiftl_mul_pow2 by lia. reflexivity.
+Qed.
+
+Lemma shl64_range : forall v n, 0 <= shl64 v n < 2 ^ 64.
+Proof.
+  intros v n. unfold shl64. destruct (n <? 64).
+  - apply w64_range.
+  - split; [lia | reflexivity].
+Qed.
+
+Lemma lor_range : forall a b n, 0 < n -> 0 <= a < 2 ^ n -> 0 <= b < 2 ^ n -> 0 <= Z.lor a b < 2 ^ n.
+Proof.
+  intros a b n Hn Ha Hb.
+  assert (H0 : 0 <= Z.lor a b) by (apply Z.lor_nonneg; lia).
+  split; [exact H0|].
+  destruct (Z.eq_dec (Z.lor a b) 0) as [E|E].
+  - rewrite E. apply Z.pow_pos_nonneg; lia.
+  - apply Z.log2_lt_pow2; [lia|].
+    rewrite Z.log2_lor by lia.
+    assert (La : Z.log2 a < n).
+    { destruct (Z.eq_dec a 0) as [->|]; [simpl; lia|]. apply Z.log2_lt_pow2; lia. }
+    assert (Lb : Z.log2 b < n).
+    { destruct (Z.eq_dec b 0) as [->|]; [simpl; lia|]. apply Z.log2_lt_pow2; lia. }
+    lia.
+Qed.
+
+Lemma bits_high_zero : forall a n m, 0 <= a < 2 ^ n -> 0 <= n <= m -> Z.testbit a m = false.
+Proof.
+  intros a n m Ha Hm.
+  rewrite <- (Z.mod_small a (2 ^ n)) by exact Ha.
+  apply Z.mod_pow2_bits_high. lia.
+Qed.
+
+(* disjoint bits: or is addition *)
+Lemma lor_add : forall a b n, 0 <= n -> 0 <= a < 2 ^ n -> Z.lor a (b * 2 ^ n) = a + b * 2 ^ n.
+Proof.
+  intros a b n Hn Ha.
+  assert (L : Z.land a (b * 2 ^ n) = 0).
+  { apply Z.bits_inj'. intros m Hm.
+    rewrite Z.land_spec, Z.bits_0.
+    destruct (Z.lt_ge_cases m n).
+    - rewrite Z.mul_pow2_bits_low by lia. apply andb_false_r.
+    - rewrite (bits_high_zero a n m) by lia. reflexivity. }
+  rewrite <- Z.lxor_lor by exact L.
+  symmetry. apply Z.add_nocarry_lxor. exact L.
+Qed.
+
+(* finite sweeps over bytes *)
+Lemma byte_sweep : forall (P : Z -> bool),
+  forallb P (map Z.of_nat (seq 0 256)) = true -> forall y, 0 <= y < 256 -> P y = true.
+Proof.
+  intros P H y Hy.
+  rewrite forallb_forall in H. apply H.
+  rewrite <- (Z2Nat.id y) by lia.
+  apply in_map. apply in_seq. lia.
+Qed.
+
+Lemma lor128 : forall y, 0 <= y < 256 -> Z.lor y 128 = y mod 128 + 128.
+Proof.
+  intros y Hy.
+  apply Z.eqb_eq.
+  apply (byte_sweep (fun y => Z.lor y 128 =? y mod 128 + 128)); [vm_compute; reflexivity | exact Hy].
+Qed.
+
+Lemma land127 : forall y, 0 <= y < 256 -> Z.land y 127 = y mod 128.
+Proof.
+  intros y Hy.
+  apply Z.eqb_eq.
+  apply (byte_sweep (fun y => Z.land y 127 =? y mod 128)); [vm_compute; reflexivity | exact Hy].
+Qed.
+
+(* ------------------------------------------------------------------ *)
+(* list helpers                                                        *)
+(* ------------------------------------------------------------------ *)
+
+Lemma len_nil : forall A, len (@nil A) = 0.
+Proof. reflexivity. Qed.
+
+Lemma len_cons : forall A (x : A) l, len (x :: l) = len l + 1.
+Proof. intros. unfold len. cbn [length]. lia. Qed.
+
+Lemma len_app : forall A (l1 l2 : list A), len (l1 ++ l2) = len l1 + len l2.
+Proof. intros. unfold len. rewrite app_length. lia. Qed.
+
+Lemma len_nonneg : forall A (l : list A), 0 <= len l.
+Proof. intros. unfold len. lia. Qed.
+
+(* ------------------------------------------------------------------ *)
+(* varints: the shape of the canonical encoding                        *)
+(* ------------------------------------------------------------------ *)
+
+(* the bytes exactly as the generated encoder computes them: n continuation bytes
+   followed by a final byte, group j at bit offset j *)
+Fixpoint vb (n : nat) (v : Z) (j : Z) : bytes :=
+  match n with
+  | O => [w8 (shr64 v j)]
+  | S n' => or8 (w8 (shr64 v j)) 128 :: vb n' v (j + 7)
+  end.
+
+Lemma vb_length : forall n v j, length (vb n v j) = S n.
+Proof. induction n; intros; cbn [vb length]; [reflexivity | rewrite IHn; reflexivity]. Qed.
+
+Lemma w8_byte : forall x, is_byte (w8 x) = true.
+Proof.
+  intros x. unfold is_byte, w8. change (2 ^ 8) with 256.
+  apply andb_true_intro. split; [apply Z.leb_le | apply Z.ltb_lt]; lia.
+Qed.
+
+Lemma or8_w8_128 : forall x, or8 (w8 x) 128 = x mod 128 + 128.
+Proof.
+  intros x. unfold or8, w8. change (2 ^ 8) with 256.
+  rewrite lor128 by lia. lia.
+Qed.
+
+Lemma vb_wfb : forall n v j, wfb (vb n v j) = true.
+Proof.
+  induction n; intros; cbn [vb wfb forallb].
+  - rewrite w8_byte. reflexivity.
+  - fold (wfb (vb n v (j + 7))). rewrite IHn. rewrite or8_w8_128.
+    unfold is_byte. apply andb_true_intro. split; [|reflexivity].
+    apply andb_true_intro. split; [apply Z.leb_le | apply Z.ltb_lt]; lia.
+Qed.
+
+Lemma varint_fuel_vb : forall n f v j,
+  (n < f)%nat -> 0 <= j -> j + 7 * Z.of_nat n < 64 -> 0 <= v ->
+  (n = O \/ 128 ^ Z.of_nat n <= v / 2 ^ j) -> v / 2 ^ j < 128 ^ (Z.of_nat n + 1) ->
+  varint_fuel f (v / 2 ^ j) = vb n v j.
+Proof.
+  induction n; intros f v j Hf Hj Hj64 Hv Hlo Hhi.
+  - destruct f as [|f]; [lia|].
+    cbn [varint_fuel vb]. change (128 ^ (Z.of_nat 0 + 1)) with 128 in Hhi.
+    destruct (Z.ltb_spec (v / 2 ^ j) 128); [|lia].
+    rewrite shr64_div by lia. unfold w8. change (2 ^ 8) with 256.
+    assert (0 <= v / 2 ^ j) by (apply Z.div_pos; [lia | apply Z.pow_pos_nonneg; lia]).
+    rewrite Z.mod_small by lia. reflexivity.
+  - destruct f as [|f]; [lia|].
+    destruct Hlo as [Hlo|Hlo]; [discriminate|].
+    assert (P : 0 < 128 ^ Z.of_nat n) by (apply Z.pow_pos_nonneg; lia).
+    assert (E1 : 128 ^ Z.of_nat (S n) = 128 * 128 ^ Z.of_nat n).
+    { rewrite Nat2Z.inj_succ. rewrite Z.pow_succ_r by lia. reflexivity. }
+    assert (E2 : 128 ^ (Z.of_nat (S n) + 1) = 128 * 128 ^ (Z.of_nat n + 1)).
+    { rewrite Nat2Z.inj_succ. unfold Z.succ. rewrite (Z.pow_add_r 128 (Z.of_nat n + 1) 1) by lia.
+      change (128 ^ 1) with 128. lia. }
+    rewrite E1 in Hlo. rewrite E2 in Hhi.
+    cbn [varint_fuel vb].
+    destruct (Z.ltb_spec (v / 2 ^ j) 128); [nia|].
+    rewrite or8_w8_128. rewrite shr64_div by lia.
+    assert (E3 : v / 2 ^ j / 128 = v / 2 ^ (j + 7)).
+    { rewrite Z.pow_add_r by lia. change (2 ^ 7) with 128.
+      rewrite Z.div_div; [reflexivity | | lia].
+      assert (0 < 2 ^ j) by (apply Z.pow_pos_nonneg; lia). lia. }
+    rewrite E3. f_equal.
+    apply IHn; try lia; rewrite <- E3.
+    all: try (right; apply Z.div_le_lower_bound; lia).
+    all: try (apply Z.div_lt_upper_bound; lia).
+Qed.
+
+Lemma varint_range : forall (k : nat) v,
+  (1 <= k <= 10)%nat -> 0 <= v ->
+  (k = 1%nat \/ 128 ^ (Z.of_nat k - 1) <= v) -> v < 128 ^ Z.of_nat k ->
+  varint v = vb (k - 1) v 0.
+Proof.
+  intros k v Hk Hv Hlo Hhi.
+  unfold varint.
+  rewrite <- (varint_fuel_vb (k - 1) 10 v 0).
+  - change (2 ^ 0) with 1. rewrite Z.div_1_r. reflexivity.
+  - lia.
+  - lia.
+  - lia.
+  - exact Hv.
+  - change (2 ^ 0) with 1. rewrite Z.div_1_r.
+    destruct Hlo as [->|Hlo]; [left; reflexivity|].
+    right. replace (Z.of_nat (k - 1)) with (Z.of_nat k - 1) by lia. exact Hlo.
+  - change (2 ^ 0) with 1. rewrite Z.div_1_r.
+    replace (Z.of_nat (k - 1) + 1) with (Z.of_nat k) by lia. exact Hhi.
+Qed.
+
+Lemma bitlen64_pos : forall x, 0 < x -> bitlen64 x = Z.log2 x + 1.
+Proof. intros x H. destruct x; try lia. reflexivity. Qed.
+
+Lemma sizeOf_range : forall v k,
+  0 <= v -> 1 <= k <= 10 -> (k = 1 \/ 2 ^ (7 * (k - 1)) <= v) -> v < 2 ^ (7 * k) ->
+  proto_sizeOfVarint v = k.
+Proof.
+  intros v k Hv Hk Hlo Hhi.
+  unfold proto_sizeOfVarint, or64.
+  assert (W0 : 0 <= Z.lor v 1) by (apply Z.lor_nonneg; lia).
+  assert (W1 : Z.lor v 1 <> 0).
+  { intro E. apply Z.lor_eq_0_iff in E. lia. }
+  rewrite bitlen64_pos by lia.
+  rewrite Z.log2_lor by lia. change (Z.log2 1) with 0.
+  pose proof (Z.log2_nonneg v) as L0.
+  rewrite Z.max_l by lia.
+  assert (Lhi : Z.log2 v < 7 * k).
+  { destruct (Z.eq_dec v 0) as [->|]; [change (Z.log2 0) with 0; lia|]. apply Z.log2_lt_pow2; lia. }
+  assert (Llo : 7 * (k - 1) <= Z.log2 v).
+  { destruct Hlo as [->|Hlo]; [lia|].
+    assert (0 < 2 ^ (7 * (k - 1))) by (apply Z.pow_pos_nonneg; lia).
+    apply Z.log2_le_pow2; lia. }
+  unfold divi64, addi64.
+  rewrite (s64_small (Z.log2 v + 1 + 6)) by (change (2 ^ 63) with 9223372036854775808; lia).
+  rewrite Z.quot_div_nonneg by lia.
+  rewrite s64_small by (change (2 ^ 63) with 9223372036854775808; lia).
+  lia.
+Qed.
+
+(* the ten ranges *)
+Local Ltac shape_case k :=
+  exists k; split; [lia|]; split;
+  [ apply sizeOf_range; [lia | lia | first [left; reflexivity | right; simpl; lia] | simpl; lia]
+  | apply varint_range; [lia | lia | first [left; reflexivity | right; simpl; lia] | simpl; lia] ].
+
+Lemma varint_shape : forall v, u64 v ->
+  exists k : nat, (1 <= k <= 10)%nat /\ proto_sizeOfVarint v = Z.of_nat k /\ varint v = vb (k - 1) v 0.
+Proof.
+  intros v Hv. unfold u64 in Hv.
+  assert (C : v < 2 ^ 7 \/ 2 ^ 7 <= v < 2 ^ 14 \/ 2 ^ 14 <= v < 2 ^ 21 \/ 2 ^ 21 <= v < 2 ^ 28 \/
+              2 ^ 28 <= v < 2 ^ 35 \/ 2 ^ 35 <= v < 2 ^ 42 \/ 2 ^ 42 <= v < 2 ^ 49 \/
+              2 ^ 49 <= v < 2 ^ 56 \/ 2 ^ 56 <= v < 2 ^ 63 \/ 2 ^ 63 <= v < 2 ^ 64) by lia.
+  destruct C as [C|[C|[C|[C|[C|[C|[C|[C|[C|C]]]]]]]]].
+  - shape_case 1%nat.
+  - shape_case 2%nat.
+  - shape_case 3%nat.
+  - shape_case 4%nat.
+  - shape_case 5%nat.
+  - shape_case 6%nat.
+  - shape_case 7%nat.
+  - shape_case 8%nat.
+  - shape_case 9%nat.
+  - shape_case 10%nat.
+Qed.
+
 Lemma varint_length : varint_length_statement.
-Admitted.
+Proof.
+  intros v Hv. destruct (varint_shape v Hv) as (k & Hk & _ & E).
+  rewrite E. split.
+  - unfold len. rewrite vb_length. lia.
+  - apply vb_wfb.
+Qed.
+
 Lemma sizeOfVarint_spec : sizeOfVarint_statement.
-Admitted.
+Proof.
+  intros v Hv. destruct (varint_shape v Hv) as (k & Hk & S & E).
+  rewrite S, E. unfold len. rewrite vb_length. lia.
+Qed.
+
+Lemma shr64_0 : forall v, shr64 v 0 = v.
+Proof. reflexivity. Qed.
+
 Lemma encodeVarint_fits : encodeVarint_fits_statement.
-Admitted.
+Proof.
+  intros v b Hv Hlen. destruct (varint_shape v Hv) as (k & Hk & S & E).
+  rewrite E in *. unfold len in Hlen. rewrite vb_length in Hlen.
+  unfold proto_encodeVarint. rewrite S.
+  destruct (Z.ltb_spec (len b) (Z.of_nat k)) as [L|_]; [unfold len in L; lia|].
+  assert (C : (k = 1 \/ k = 2 \/ k = 3 \/ k = 4 \/ k = 5 \/ k = 6 \/ k = 7 \/ k = 8 \/ k = 9 \/ k = 10)%nat) by lia.
+  clear S E Hk.
+  destruct C as [C|[C|[C|[C|[C|[C|[C|[C|[C|C]]]]]]]]]; subst k.
+  - destruct b as [|b0 b]; [simpl in Hlen; lia|]. reflexivity.
+  - do 1 (destruct b as [|? b]; [simpl in Hlen; lia|]).
+    destruct b as [|? b]; [simpl in Hlen; lia|]. reflexivity.
+  - do 2 (destruct b as [|? b]; [simpl in Hlen; lia|]).
+    destruct b as [|? b]; [simpl in Hlen; lia|]. reflexivity.
+  - do 3 (destruct b as [|? b]; [simpl in Hlen; lia|]).
+    destruct b as [|? b]; [simpl in Hlen; lia|]. reflexivity.
+  - do 4 (destruct b as [|? b]; [simpl in Hlen; lia|]).
+    destruct b as [|? b]; [simpl in Hlen; lia|]. reflexivity.
+  - do 5 (destruct b as [|? b]; [simpl in Hlen; lia|]).
+    destruct b as [|? b]; [simpl in Hlen; lia|]. reflexivity.
+  - do 6 (destruct b as [|? b]; [simpl in Hlen; lia|]).
+    destruct b as [|? b]; [simpl in Hlen; lia|]. reflexivity.
+  - do 7 (destruct b as [|? b]; [simpl in Hlen; lia|]).
+    destruct b as [|? b]; [simpl in Hlen; lia|]. reflexivity.
+  - do 8 (destruct b as [|? b]; [simpl in Hlen; lia|]).
+    destruct b as [|? b]; [simpl in Hlen; lia|]. reflexivity.
+  - do 9 (destruct b as [|? b]; [simpl in Hlen; lia|]).
+    destruct b as [|? b]; [simpl in Hlen; lia|]. reflexivity.
+Qed.
+
 Lemma encodeVarint_short : encodeVarint_short_statement.
-Admitted.
+Proof.
+  intros v b Hv Hlen. unfold proto_encodeVarint.
+  rewrite (sizeOfVarint_spec v Hv).
+  destruct (Z.ltb_spec (len b) (len (varint v))); [reflexivity | lia].
+Qed.
+(* the slow-path loop of decodeVarint, named *)
+Definition dv_loop (lb : Z) : list Z -> Z -> Z -> Z -> Z * Z * option proto_error :=
+  fix loop2_ (l3_ : list Z) (i4_ : Z) (x : Z) (s : Z) {struct l3_} : (Z * Z * (option proto_error)) :=
+    match l3_ with
+    | [] => (x, lb, Some proto_ErrUnexpectedEOF)
+    | h5_ :: t6_ =>
+      if (h5_ <? 128) then
+        (if ((i4_ >? 9) || ((i4_ =? 9) && (h5_ >? 1))) then
+          ((0, i4_, (Some proto_errVarintOverflow)))
+        else
+          ((or64 x (shl64 h5_ s), addi64 i4_ 1, None)))
+      else
+        loop2_ t6_ (i4_ + 1) (or64 x (shl64 (and8 h5_ 127) s)) (add64 s 7)
+    end.
+
+Lemma decodeVarint_unfold : forall b,
+  proto_decodeVarint b =
+  if (negb (len b =? 0)) && (at_ b 0 <? 128) then (at_ b 0, 1, None) else dv_loop (len b) b 0 0 0.
+Proof. reflexivity. Qed.
+
+Lemma dv_loop_varint : forall f lb r rest i x,
+  0 <= i -> i + Z.of_nat f = 9 -> 0 <= x < 2 ^ (7 * i) -> 0 <= r -> x + r * 2 ^ (7 * i) < 2 ^ 64 ->
+  dv_loop lb (varint_fuel (S f) r ++ rest) i x (7 * i) =
+  (x + r * 2 ^ (7 * i), i + len (varint_fuel (S f) r), None).
+Proof.
+  induction f; intros lb r rest i x Hi Hf Hx Hr Hb.
+  - assert (i = 9) by lia. subst i. change (7 * 9) with 63 in *.
+    change (2 ^ 63) with 9223372036854775808 in *.
+    change (2 ^ 64) with 18446744073709551616 in *.
+    cbn [varint_fuel]. destruct (Z.ltb_spec r 128); [|lia].
+    cbn [app dv_loop].
+    destruct (Z.ltb_spec r 128); [|lia].
+    change (9 >? 9) with false. change (9 =? 9) with true. cbn [orb andb].
+    destruct (Z.gtb_spec r 1); [lia|].
+    rewrite shl64_mul by lia. change (2 ^ 63) with 9223372036854775808.
+    rewrite w64_small by (change (2 ^ 64) with 18446744073709551616; lia).
+    unfold or64. change 9223372036854775808 with (2 ^ 63) at 1.
+    rewrite lor_add by (change (2 ^ 63) with 9223372036854775808; lia).
+    reflexivity.
+  - assert (P : 0 < 2 ^ (7 * i)) by (apply Z.pow_pos_nonneg; lia).
+    assert (P7 : 2 ^ (7 * (i + 1)) = 128 * 2 ^ (7 * i)).
+    { replace (7 * (i + 1)) with (7 * i + 7) by lia. rewrite Z.pow_add_r by lia.
+      change (2 ^ 7) with 128. lia. }
+    assert (P63 : 2 ^ (7 * i) * 2 ^ (64 - 7 * i) = 2 ^ 64).
+    { rewrite <- Z.pow_add_r by lia. f_equal. lia. }
+    remember (S f) as f1. cbn [varint_fuel].
+    destruct (Z.ltb_spec r 128) as [R|R].
+    + cbn [app dv_loop]. destruct (Z.ltb_spec r 128); [|lia].
+      destruct (Z.gtb_spec i 9); [lia|]. destruct (Z.eqb_spec i 9); [lia|]. cbn [orb andb].
+      rewrite shl64_mul by lia. rewrite w64_small by nia.
+      unfold or64. rewrite lor_add by lia.
+      unfold addi64. rewrite s64_small by (change (2 ^ 63) with 9223372036854775808; lia).
+      rewrite len_cons, len_nil. reflexivity.
+    + cbn [app dv_loop].
+      destruct (Z.ltb_spec (r mod 128 + 128) 128); [lia|].
+      unfold and8. rewrite land127 by lia.
+      replace ((r mod 128 + 128) mod 128) with (r mod 128) by lia.
+      rewrite shl64_mul by lia.
+      assert (M : 0 <= r mod 128 < 128) by lia.
+      assert (Q : 0 <= r / 128) by lia.
+      assert (D : r = 128 * (r / 128) + r mod 128) by lia.
+      assert (B1 : (r mod 128) * 2 ^ (7 * i) <= 127 * 2 ^ (7 * i)) by (apply Z.mul_le_mono_nonneg_r; lia).
+      assert (B2 : 0 <= (r mod 128) * 2 ^ (7 * i)) by (apply Z.mul_nonneg_nonneg; lia).
+      assert (B3 : 0 <= r / 128 * (128 * 2 ^ (7 * i))) by (apply Z.mul_nonneg_nonneg; lia).
+      assert (E : x + r * 2 ^ (7 * i) = x + r mod 128 * 2 ^ (7 * i) + r / 128 * (128 * 2 ^ (7 * i))).
+      { rewrite D at 1. ring. }
+      rewrite w64_small by lia.
+      unfold or64. rewrite lor_add by lia.
+      unfold add64. rewrite w64_small by (change (2 ^ 64) with 18446744073709551616; lia).
+      replace (7 * i + 7) with (7 * (i + 1)) by lia.
+      subst f1. rewrite IHf by lia.
+      rewrite P7, len_cons. rewrite E. f_equal. f_equal. lia.
+Qed.
+
 Lemma decodeVarint_encode : decodeVarint_encode_statement.
-Admitted.
+Proof.
+  intros v rest Hv. unfold u64 in Hv.
+  rewrite decodeVarint_unfold.
+  unfold varint. 
+  destruct (Z.ltb_spec v 128) as [V|V].
+  - cbn [varint_fuel]. destruct (Z.ltb_spec v 128); [|lia].
+    cbn [app]. rewrite len_cons. unfold at_. cbn [Z.to_nat nth].
+    destruct (Z.eqb_spec (len rest + 1) 0); [pose proof (len_nonneg _ rest); lia|].
+    destruct (Z.ltb_spec v 128); [|lia]. cbn [negb andb]. reflexivity.
+  - replace ((negb (len (varint_fuel 10 v ++ rest) =? 0)) && (at_ (varint_fuel 10 v ++ rest) 0 <? 128)) with false.
+    + rewrite (dv_loop_varint 9 _ v rest 0 0); try (simpl; lia).
+      change (2 ^ (7 * 0)) with 1. f_equal. f_equal. lia.
+    + symmetry. apply andb_false_intro2.
+      cbn [varint_fuel]. destruct (Z.ltb_spec v 128); [lia|].
+      cbn [app]. unfold at_. cbn [Z.to_nat nth]. apply Z.ltb_ge. lia.
+Qed.
+
+Lemma dv_loop_bounds : forall l lb i x s v n e,
+  lb = i + len l -> 0 <= i -> 0 <= x < 2 ^ 64 ->
+  dv_loop lb l i x s = (v, n, e) ->
+  i <= n <= lb /\ u64 v /\ (e = None -> 1 <= n <= 10).
+Proof.
+  induction l as [|c l IH]; intros lb i x s v n e Hlb Hi Hx H.
+  - cbn [dv_loop] in H. inversion H; subst. rewrite len_nil.
+    split; [lia|]. split; [exact Hx | discriminate].
+  - rewrite len_cons in Hlb. pose proof (len_nonneg _ l) as Hl.
+    cbn [dv_loop] in H.
+    destruct (c <? 128).
+    + destruct (Z.gtb_spec i 9) as [G|G]; cbn [orb] in H.
+      * inversion H; subst. split; [lia|]. split; [unfold u64; split; [lia|reflexivity] | discriminate].
+      * destruct ((i =? 9) && (c >? 1)).
+        -- inversion H; subst. split; [lia|]. split; [unfold u64; split; [lia|reflexivity] | discriminate].
+        -- inversion H; subst. unfold addi64.
+           rewrite s64_small by (change (2 ^ 63) with 9223372036854775808; lia).
+           split; [lia|]. split; [|intros _; lia].
+           unfold u64, or64. apply lor_range; [lia | exact Hx | apply shl64_range].
+    + apply IH in H; try lia.
+      * destruct H as (H1 & H2 & H3). split; [lia|]. split; assumption.
+      * unfold or64. apply lor_range; [lia | exact Hx | apply shl64_range].
+Qed.
+
+Lemma decodeVarint_bounds_gen : forall b v n e, wfb b = true ->
+  proto_decodeVarint b = (v, n, e) ->
+  0 <= n <= len b /\ u64 v /\ (e = None -> 1 <= n <= 10).
+Proof.
+  intros b v n e Hb H. rewrite decodeVarint_unfold in H.
+  destruct b as [|c b].
+  - cbn in H. inversion H; subst. rewrite len_nil. unfold u64.
+    split; [lia|]. split; [split; [lia|reflexivity] | discriminate].
+  - cbn [wfb forallb] in Hb. apply andb_prop in Hb. destruct Hb as [Hc _].
+    unfold is_byte in Hc. apply andb_prop in Hc. destruct Hc as [Hc1 Hc2].
+    apply Z.leb_le in Hc1. apply Z.ltb_lt in Hc2.
+    pose proof (len_nonneg _ b) as Hl.
+    destruct ((negb (len (c :: b) =? 0)) && (at_ (c :: b) 0 <? 128)).
+    + unfold at_ in H. cbn [Z.to_nat nth] in H. inversion H; subst.
+      rewrite len_cons. split; [lia|]. split; [|intros _; lia].
+      unfold u64. change (2 ^ 64) with 18446744073709551616. lia.
+    + apply dv_loop_bounds in H; try lia.
+      destruct H as (H1 & H2 & H3). split; [lia|]. split; assumption.
+Qed.
+
 Lemma decodeVarint_bounds : decodeVarint_bounds_statement.
-Admitted.
+Proof.
+  intros b Hb.
+  destruct (proto_decodeVarint b) as [[v n] e] eqn:E.
+  apply (decodeVarint_bounds_gen b v n e Hb E).
+Qed.
+(* ------------------------------------------------------------------ *)
+(* zig-zag                                                             *)
+(* ------------------------------------------------------------------ *)
+
+Local Ltac lits :=
+  change (2 ^ 64) with 18446744073709551616 in *;
+  change (2 ^ 63) with 9223372036854775808 in *;
+  change (2 ^ 32) with 4294967296 in *;
+  change (2 ^ 31) with 2147483648 in *;
+  change (2 ^ 1) with 2 in *.
+
+Lemma lxor_ones : forall a n, 0 <= n -> 0 <= a < 2 ^ n -> Z.lxor a (2 ^ n - 1) = 2 ^ n - 1 - a.
+Proof.
+  intros a n Hn Ha.
+  assert (E : Z.lxor a (Z.ones n) = (Z.lnot a) mod 2 ^ n).
+  { apply Z.bits_inj'. intros m Hm. rewrite Z.lxor_spec.
+    destruct (Z.lt_ge_cases m n).
+    - rewrite Z.ones_spec_low by lia. rewrite Z.mod_pow2_bits_low by lia.
+      rewrite Z.lnot_spec by lia. apply xorb_true_r.
+    - rewrite Z.ones_spec_high by lia. rewrite Z.mod_pow2_bits_high by lia.
+      rewrite (bits_high_zero a n m) by lia. reflexivity. }
+  replace (2 ^ n - 1) with (Z.ones n) by (rewrite Z.ones_equiv; unfold Z.pred; lia).
+  rewrite E. rewrite Z.ones_equiv.
+  unfold Z.lnot, Z.pred. symmetry.
+  apply (Z.mod_unique _ _ (-1)); lia.
+Qed.
+
+Lemma land1 : forall x, Z.land x 1 = x mod 2.
+Proof. intros x. exact (Z.land_ones x 1 ltac:(lia)). Qed.
+
+Lemma unzigzag_zigzag : forall v, unzigzag (zigzag v) = v.
+Proof.
+  intros v. unfold unzigzag. pose proof (Zmod_even (zigzag v)) as E. revert E.
+  unfold zigzag. destruct (Z.leb_spec 0 v); destruct (Z.even _); lia.
+Qed.
+
+Lemma zigzag_unzigzag : forall u, 0 <= u -> zigzag (unzigzag u) = u.
+Proof.
+  intros u Hu. unfold zigzag, unzigzag. pose proof (Zmod_even u) as E.
+  destruct (Z.even u).
+  - destruct (Z.leb_spec 0 (u / 2)); lia.
+  - destruct (Z.leb_spec 0 (- ((u + 1) / 2))); lia.
+Qed.
+
+Lemma encodeZigZag64_zigzag : forall v, i64 v -> proto_encodeZigZag64 v = zigzag v.
+Proof.
+  intros v Hv. unfold i64 in Hv.
+  unfold proto_encodeZigZag64, zigzag, xor64, shri64.
+  change (63 <? 64) with true. cbv iota. rewrite Z.shiftr_div_pow2 by lia.
+  rewrite shl64_mul by lia. unfold w64. lits.
+  destruct (Z.leb_spec 0 v).
+  - replace (v / 9223372036854775808) with 0 by lia.
+    change (0 mod 18446744073709551616) with 0. rewrite Z.lxor_0_r. lia.
+  - replace (v / 9223372036854775808) with (-1) by lia.
+    change (-1 mod 18446744073709551616) with (2 ^ 64 - 1).
+    rewrite lxor_ones by (lits; lia). lits. lia.
+Qed.
+
+Lemma s64_parity : forall u, (s64 u) mod 2 = u mod 2.
+Proof.
+  intros u. unfold s64, w64. lits.
+  destruct (Z.ltb_spec (u mod 18446744073709551616) 9223372036854775808); lia.
+Qed.
+
+Lemma decodeZigZag64_unzigzag : forall u, u64 u -> proto_decodeZigZag64 u = unzigzag u.
+Proof.
+  intros u Hu. unfold u64 in Hu.
+  unfold proto_decodeZigZag64, unzigzag, xori64, negi64, andi64.
+  rewrite shr64_div by lia. rewrite land1, s64_parity.
+  pose proof (Zmod_even u) as E. lits.
+  rewrite (s64_small (u / 2)) by (lits; lia).
+  destruct (Z.even u); rewrite E.
+  - change (s64 0) with 0. change (- 0) with 0. rewrite Z.lxor_0_r.
+    apply s64_small. lits. lia.
+  - change (s64 1) with 1. change (s64 (- 1)) with (-1).
+    rewrite Z.lxor_m1_r. unfold Z.lnot, Z.pred.
+    rewrite s64_small by (lits; lia). lia.
+Qed.
+
+Lemma zigzag_u64 : forall v, i64 v -> u64 (zigzag v).
+Proof.
+  intros v Hv. unfold i64, u64, zigzag in *. lits. destruct (Z.leb_spec 0 v); lia.
+Qed.
+
+Lemma unzigzag_i64 : forall u, u64 u -> i64 (unzigzag u).
+Proof.
+  intros u Hu. unfold i64, u64, unzigzag in *. lits. destruct (Z.even u); lia.
+Qed.
+
 Lemma zigzag64_spec : zigzag64_statement.
-Admitted.
+Proof.
+  intros v Hv. split; [apply encodeZigZag64_zigzag; exact Hv|].
+  split; [apply zigzag_u64; exact Hv|].
+  rewrite decodeZigZag64_unzigzag by (apply zigzag_u64; exact Hv).
+  apply unzigzag_zigzag.
+Qed.
+
 Lemma unzigzag64_spec : unzigzag64_statement.
-Admitted.
+Proof.
+  intros u Hu. split; [apply decodeZigZag64_unzigzag; exact Hu|].
+  split; [apply unzigzag_i64; exact Hu|].
+  rewrite encodeZigZag64_zigzag by (apply unzigzag_i64; exact Hu).
+  apply zigzag_unzigzag. unfold u64 in Hu. lia.
+Qed.
+
+Lemma encodeZigZag32_zigzag : forall v, i32 v -> proto_encodeZigZag32 v = zigzag v.
+Proof.
+  intros v Hv. unfold i32 in Hv.
+  unfold proto_encodeZigZag32, zigzag, xor32, shri32, shl32.
+  change (31 <? 32) with true. change (1 <? 32) with true. cbv iota.
+  rewrite Z.shiftr_div_pow2 by lia. rewrite Z.shiftl_mul_pow2 by lia.
+  unfold w32. lits.
+  destruct (Z.leb_spec 0 v).
+  - replace (v / 2147483648) with 0 by lia.
+    change (0 mod 4294967296) with 0. rewrite Z.lxor_0_r. lia.
+  - replace (v / 2147483648) with (-1) by lia.
+    change (-1 mod 4294967296) with (2 ^ 32 - 1).
+    rewrite lxor_ones by (lits; lia). lits. lia.
+Qed.
+
+Lemma s32_parity : forall u, (s32 u) mod 2 = u mod 2.
+Proof.
+  intros u. unfold s32, w32. lits.
+  destruct (Z.ltb_spec (u mod 4294967296) 2147483648); lia.
+Qed.
+
+Lemma decodeZigZag32_unzigzag : forall u, u32 u -> proto_decodeZigZag32 u = unzigzag u.
+Proof.
+  intros u Hu. unfold u32 in Hu.
+  unfold proto_decodeZigZag32, unzigzag, xori32, negi32, andi32, shr32.
+  change (1 <? 32) with true. cbv iota.
+  rewrite Z.shiftr_div_pow2 by lia. rewrite land1, s32_parity.
+  pose proof (Zmod_even u) as E. lits.
+  rewrite (s32_small (u / 2)) by (lits; lia).
+  destruct (Z.even u); rewrite E.
+  - change (s32 0) with 0. change (- 0) with 0. rewrite Z.lxor_0_r.
+    apply s32_small. lits. lia.
+  - change (s32 1) with 1. change (s32 (- 1)) with (-1).
+    rewrite Z.lxor_m1_r. unfold Z.lnot, Z.pred.
+    rewrite s32_small by (lits; lia). lia.
+Qed.
+
 Lemma zigzag32_spec : zigzag32_statement.
-Admitted.
+Proof.
+  intros v Hv.
+  assert (U : u32 (zigzag v)).
+  { unfold i32, u32, zigzag in *. lits. destruct (Z.leb_spec 0 v); lia. }
+  split; [apply encodeZigZag32_zigzag; exact Hv|].
+  split; [exact U|].
+  rewrite decodeZigZag32_unzigzag by exact U.
+  apply unzigzag_zigzag.
+Qed.
+
 Lemma flags_int64_spec : flags_int64_statement.
-Admitted.
+Proof.
+  intros f v Hf Hv. unfold proto_flags_uint64, proto_flags_int64.
+  destruct (proto_flags_has f proto_zigzag).
+  - destruct (zigzag64_spec v Hv) as (E & U & D). rewrite E. split; assumption.
+  - unfold i64 in Hv. unfold u64. split.
+    + apply w64_range.
+    + unfold s64, w64. lits. rewrite Z.mod_mod by lia.
+      destruct (Z.ltb_spec (v mod 18446744073709551616) 9223372036854775808); lia.
+Qed.
+(* ------------------------------------------------------------------ *)
+(* little-endian fixed widths                                          *)
+(* ------------------------------------------------------------------ *)
+
 Lemma encodeLE_spec : encodeLE_statement.
-Admitted.
+Proof.
+  intros v b. unfold proto_encodeLE32, proto_encodeLE64, put_le32, put_le64, splice.
+  split; [|split; [|split]].
+  - intros _ Hb. destruct (Z.ltb_spec (len b) 4); [lia|]. reflexivity.
+  - intros Hb. destruct (Z.ltb_spec (len b) 4); [|lia]. reflexivity.
+  - intros _ Hb. destruct (Z.ltb_spec (len b) 8); [lia|]. reflexivity.
+  - intros Hb. destruct (Z.ltb_spec (len b) 8); [|lia]. reflexivity.
+Qed.
+
 Lemma decodeLE_spec : decodeLE_statement.
-Admitted.
+Proof.
+  intros v rest. pose proof (len_nonneg _ rest) as Hr. split; intros Hv.
+  - unfold u32 in Hv. unfold proto_decodeLE32. rewrite len_app.
+    change (len (le_bytes 4 v)) with 4.
+    destruct (Z.ltb_spec (4 + len rest) 4); [lia|].
+    f_equal. f_equal. unfold le32. cbn [le_bytes app le_load]. lits. lia.
+  - unfold u64 in Hv. unfold proto_decodeLE64. rewrite len_app.
+    change (len (le_bytes 8 v)) with 8.
+    destruct (Z.ltb_spec (8 + len rest) 8); [lia|].
+    f_equal. f_equal. unfold le64. cbn [le_bytes app le_load]. lits. lia.
+Qed.
+
+(* ------------------------------------------------------------------ *)
+(* tags                                                                *)
+(* ------------------------------------------------------------------ *)
+
+Lemma land7 : forall x, Z.land x 7 = x mod 8.
+Proof. intros x. exact (Z.land_ones x 3 ltac:(lia)). Qed.
+
 Lemma tag_spec : tag_statement.
-Admitted.
+Proof.
+  intros number wt b Hn Hw.
+  change (2 ^ 61) with 2305843009213693952 in Hn.
+  assert (T : or64 (shl64 number 3) wt = tag_of number wt).
+  { rewrite shl64_mul by lia. change (2 ^ 3) with 8.
+    rewrite w64_small by (lits; lia). unfold or64, tag_of.
+    rewrite Z.lor_comm. change 8 with (2 ^ 3). rewrite lor_add by (change (2 ^ 3) with 8; lia).
+    lia. }
+  assert (U : u64 (tag_of number wt)) by (unfold u64, tag_of; lits; lia).
+  split; [|split].
+  - unfold proto_encodeTag. rewrite T.
+    destruct (proto_encodeVarint b (tag_of number wt)) as [[r1 r2] b']. reflexivity.
+  - unfold proto_sizeOfTag. rewrite T. apply sizeOfVarint_spec. exact U.
+  - intros rest. unfold proto_decodeTag. rewrite decodeVarint_encode by exact U.
+    cbv beta iota zeta. rewrite shr64_div by lia. unfold and64. rewrite land7.
+    unfold tag_of. change (2 ^ 3) with 8.
+    f_equal. f_equal. f_equal; lia.
+Qed.
+
+(* ------------------------------------------------------------------ *)
+(* length-delimited payloads                                           *)
+(* ------------------------------------------------------------------ *)
+
+Lemma slice_mid : forall (p s r : bytes), slice (p ++ s ++ r) (len p) (len p + len s) = s.
+Proof.
+  intros p s r. unfold slice, len.
+  replace (Z.of_nat (length p) + Z.of_nat (length s) - Z.of_nat (length p)) with (Z.of_nat (length s)) by lia.
+  rewrite !Nat2Z.id.
+  rewrite skipn_app, skipn_all, Nat.sub_diag. cbn [skipn app].
+  rewrite firstn_app, firstn_all, Nat.sub_diag. cbn [firstn]. apply app_nil_r.
+Qed.
+
+Lemma wfb_firstn : forall n b, wfb b = true -> wfb (firstn n b) = true.
+Proof.
+  induction n; intros b H; [reflexivity|].
+  destruct b as [|c b]; [reflexivity|].
+  cbn [firstn wfb forallb] in *. apply andb_prop in H. destruct H as [H1 H2].
+  rewrite H1. cbn [andb]. apply IHn. exact H2.
+Qed.
+
+Lemma wfb_skipn : forall n b, wfb b = true -> wfb (skipn n b) = true.
+Proof.
+  induction n; intros b H; [exact H|].
+  destruct b as [|c b]; [reflexivity|].
+  cbn [skipn]. cbn [wfb forallb] in H. apply andb_prop in H. destruct H as [H1 H2].
+  apply IHn. exact H2.
+Qed.
+
 Lemma decodeVarlen_encode : decodeVarlen_encode_statement.
-Admitted.
+Proof.
+  intros s rest Hs Hl Hr.
+  pose proof (len_nonneg _ s) as Ls. pose proof (len_nonneg _ rest) as Lr.
+  change (2 ^ 62) with 4611686018427387904 in *.
+  assert (U : u64 (len s)) by (unfold u64; lits; lia).
+  destruct (varint_length (len s) U) as [K _].
+  split.
+  - unfold proto_decodeVarlen. rewrite decodeVarint_encode by exact U.
+    cbn [isnil negb]. rewrite !len_app.
+    unfold subi64, addi64.
+    rewrite (s64_small (len s)) by (lits; lia).
+    rewrite !s64_small by (lits; lia).
+    rewrite w64_small by (lits; lia).
+    destruct (Z.gtb_spec (len s) (len (varint (len s)) + (len s + len rest) - len (varint (len s)))); [lia|].
+    rewrite slice_mid. reflexivity.
+  - unfold proto_sizeOfVarlen. rewrite w64_small by (lits; lia).
+    rewrite sizeOfVarint_spec by exact U.
+    unfold addi64. apply s64_small. lits. lia.
+Qed.
+
 Lemma decodeVarlen_bounds : decodeVarlen_bounds_statement.
-Admitted.
+Proof.
+  intros b Hb Hl. unfold proto_decodeVarlen.
+  change (2 ^ 62) with 4611686018427387904 in *.
+  destruct (proto_decodeVarint b) as [[v n] e] eqn:E.
+  destruct (decodeVarint_bounds_gen b v n e Hb E) as (Hn & Hv & He).
+  unfold u64 in Hv.
+  destruct e; cbn [isnil negb].
+  - split; [lia|discriminate].
+  - unfold subi64. rewrite s64_small by (lits; lia). rewrite w64_small by (lits; lia).
+    destruct (Z.gtb_spec v (len b - n)).
+    + split; [lia|discriminate].
+    + unfold addi64. rewrite (s64_small v) by (lits; lia).
+      rewrite s64_small by (lits; lia).
+      split; [lia|]. intros _. split.
+      * unfold slice, len. pose proof (firstn_le_length (Z.to_nat (n + v - n)) (skipn (Z.to_nat n) b)). lia.
+      * unfold slice. apply wfb_firstn. apply wfb_skipn. exact Hb.
+Qed.
